@@ -60,7 +60,7 @@ Section RnodeInd.
   Variable P : rnode -> Prop.
   Hypothesis HL : forall uid key inf natives fails intr, P (RLambda uid key inf natives fails intr).
   Hypothesis HP : forall uid key, P (RPass uid key).
-  Hypothesis HD : forall uid key, P (RDone uid key).
+  Hypothesis HD : forall uid key sh, P (RDone uid key sh).
   Hypothesis HS : forall uid key inf stages, Forall (Forall P) stages -> P (RSub uid key inf stages).
   Hypothesis HT : forall uid key inf calls, P (RTools uid key inf calls).
 
@@ -68,7 +68,7 @@ Section RnodeInd.
     match n with
     | RLambda uid key inf natives fails intr => HL uid key inf natives fails intr
     | RPass uid key => HP uid key
-    | RDone uid key => HD uid key
+    | RDone uid key sh => HD uid key sh
     | RSub uid key inf stages =>
         HS uid key inf stages
            ((fix fs (l : list (list rnode)) : Forall (Forall P) l :=
@@ -102,7 +102,7 @@ Proof. induction l as [|a l IH]; simpl; auto. now rewrite IH. Qed.
 
 Lemma proj_uids n : subseq (flat_map uids (proj n)) (ruids n).
 Proof.
-  induction n as [uid key inf natives fails intr|uid key|uid key|uid key inf stages IH|uid key inf calls]
+  induction n as [uid key inf natives fails intr|uid key|uid key sh|uid key inf stages IH|uid key inf calls]
     using rnode_ind'; simpl.
   - apply subseq_refl.
   - apply subseq_refl.
@@ -157,7 +157,7 @@ Qed.
 
 Lemma resume_node_uids n : forall opts, subseq (ruids (resume_node opts n)) (ruids n).
 Proof.
-  induction n as [uid key inf natives fails intr|uid key|uid key|uid key inf stages IH|uid key inf calls]
+  induction n as [uid key inf natives fails intr|uid key|uid key sh|uid key inf stages IH|uid key inf calls]
     using rnode_ind'; intros opts; simpl; try apply subseq_refl.
   - apply ss_keep.
     set (F := fun m => node_outcome (sub_opts key opts) m).
@@ -180,54 +180,6 @@ Proof.
     apply resume_node_uids.
   - rewrite map_map_fst3. apply subseq_refl.
 Qed.
-
-Lemma plan_seq_uids fuel : forall opts plan p,
-  In p (plan_seq fuel opts plan) -> subseq (rstages_uids p) (rstages_uids plan).
-Proof.
-  induction fuel as [|f IH]; simpl; intros opts plan p H; [contradiction|].
-  destruct H as [<-|H]; [apply subseq_refl|].
-  destruct (is_intr _); [|contradiction].
-  eapply subseq_trans; [apply (IH _ _ _ H)|]. apply resume_stages_uids.
-Qed.
-
-(* every run of a sequence executes a graph whose unit names are distinct *)
-Lemma run_seq_NoDup fuel opts plan g r :
-  NoDup (g :: rstages_uids plan) -> In r (run_seq fuel opts plan) -> NoDup (g :: stages_uids (snd r)).
-Proof.
-  intros N H. unfold run_seq in H. apply in_map_iff in H. destruct H as (p & <- & Hp). simpl.
-  apply proj_NoDup. eapply NoDup_subseq; [|exact N]. apply ss_keep. eapply plan_seq_uids; eauto.
-Qed.
-
-(* ---------------------------------------------------------------- the engine theorems, run by run *)
-
-Theorem runs_unit_logs w is_stream g ginf fuel opts plan r t :
-  NoDup (g :: rstages_uids plan) ->
-  In r (run_seq fuel opts plan) ->
-  traces (graph_prog is_stream g ginf (fst r) (snd r)) t ->
-  forall e, In e (graph_table is_stream g ginf (fst r) (snd r)) ->
-    filter (of_unit (ue_unit e)) (st_log (run_script true w t)) = uexp_events w e.
-Proof. intros N H T. apply engine_unit_logs; auto. eapply run_seq_NoDup; eauto. Qed.
-
-Theorem runs_no_other_events w is_stream g ginf fuel opts plan r t :
-  NoDup (g :: rstages_uids plan) ->
-  In r (run_seq fuel opts plan) ->
-  traces (graph_prog is_stream g ginf (fst r) (snd r)) t ->
-  forall ev, In ev (st_log (run_script true w t)) ->
-    exists e, In e (graph_table is_stream g ginf (fst r) (snd r)) /\ ev_unit ev = ue_unit e /\
-              In ev (uexp_events w e).
-Proof. intros N H T. apply engine_no_other_events; auto. eapply run_seq_NoDup; eauto. Qed.
-
-Theorem runs_exactly_once_paired w is_stream g ginf fuel opts plan r t :
-  NoDup (g :: rstages_uids plan) ->
-  In r (run_seq fuel opts plan) ->
-  traces (graph_prog is_stream g ginf (fst r) (snd r)) t ->
-  forall e, In e (graph_table is_stream g ginf (fst r) (snd r)) ->
-  forall s f, ue_timings e = [s; f] ->
-  forall x tm,
-    List.length (filter (is_ev (ue_unit e) x tm (ue_info e)) (st_log (run_script true w t))) =
-    if (timing_eqb tm s || timing_eqb tm f) && w_needs w x tm
-    then count_occ N.eq_dec (ue_list e ++ w_globals w) x else 0%nat.
-Proof. intros N H T. apply engine_exactly_once_paired; auto. eapply run_seq_NoDup; eauto. Qed.
 
 (* ---------------------------------------------------------------- the options of a resumed run *)
 
@@ -253,27 +205,6 @@ Proof.
   exists o. repeat split; auto. intros q [A|(p & Hp & Hne & Hpre)].
   - left. tauto.
   - right. exists p. repeat split; auto.
-Qed.
-
-(* in every run of a sequence a handler is invoked for a unit only if it is global or an option
-   of the CALL attaches it to the unit's node path *)
-Theorem runs_invoked_only_where_attached w is_stream g ginf fuel opts plan r t :
-  NoDup (g :: rstages_uids plan) ->
-  In r (run_seq fuel opts plan) ->
-  traces (graph_prog is_stream g ginf (fst r) (snd r)) t ->
-  forall ev, In ev (st_log (run_script true w t)) ->
-    exists e pe, In (e, pe) (graph_table_p is_stream g ginf (fst r) (snd r)) /\
-      ev_unit ev = ue_unit e /\
-      (In (ev_handler ev) (w_globals w) \/
-       exists o, In o opts /\ In (ev_handler ev) (fst o) /\ attaches o pe).
-Proof.
-  intros N H T ev Hev.
-  destruct (engine_invoked_only_where_attached w is_stream g ginf (fst r) (snd r) t
-              (run_seq_NoDup _ _ _ _ _ N H) T ev Hev) as (e & pe & Hin & Hu & D).
-  exists e, pe. repeat split; auto. destruct D as [D|(o' & Ho' & Hx & Ha)]; [left; auto|right].
-  unfold run_seq in H. apply in_map_iff in H. destruct H as (p & <- & Hp). simpl in Ho'.
-  destruct (live_opts_attaches _ _ _ Ho') as (o & Ho & Ef & Hat).
-  exists o. repeat split; auto. now rewrite <- Ef.
 Qed.
 
 (* ---------------------------------------------------------------- the sequence ends *)
@@ -344,7 +275,7 @@ Qed.
 
 Lemma resume_node_le n : forall opts, node_intr (resume_node opts n) <= node_intr n.
 Proof.
-  induction n as [uid key inf natives fails intr|uid key|uid key|uid key inf stages IH|uid key inf calls]
+  induction n as [uid key inf natives fails intr|uid key|uid key sh|uid key inf stages IH|uid key inf calls]
     using rnode_ind'; intros opts; simpl; try lia.
   - (* sub: every node of the walk is replaced by something not larger *)
     set (F := fun m => node_outcome (sub_opts key opts) m).
@@ -373,7 +304,7 @@ Qed.
 
 Lemma resume_node_lt n : forall opts, node_outcome opts n = OutIntr -> node_intr (resume_node opts n) < node_intr n.
 Proof.
-  induction n as [uid key inf natives fails intr|uid key|uid key|uid key inf stages IH|uid key inf calls]
+  induction n as [uid key inf natives fails intr|uid key|uid key sh|uid key inf stages IH|uid key inf calls]
     using rnode_ind'; intros opts; simpl; try discriminate.
   - destruct intr; [destruct fails; discriminate|]. simpl. lia.
   - destruct (negb _); [discriminate|]. intros Ho.
@@ -410,43 +341,14 @@ Proof.
     erewrite existsb_ext_in; [exact Ho|]. intros st _. simpl. rewrite !existsb_map'. reflexivity.
 Qed.
 
-(* with fuel beyond the number of interrupts still to come the sequence is complete: its last
-   run is not interrupted *)
-Theorem plan_seq_complete fuel : forall opts plan,
-  total_intr plan < fuel ->
-  exists pre last, plan_seq fuel opts plan = pre ++ [last] /\
-    is_intr (run_outcome (live_opts last opts) last) = false.
-Proof.
-  induction fuel as [|f IH]; intros opts plan L; [lia|]. simpl.
-  destruct (is_intr (run_outcome (live_opts plan opts) plan)) eqn:E.
-  - assert (Ho : run_outcome (live_opts plan opts) plan = OutIntr)
-      by (destruct (run_outcome (live_opts plan opts) plan); try discriminate; auto).
-    pose proof (resume_stages_decreases _ _ Ho) as D.
-    destruct (IH opts (resume_stages (live_opts plan opts) plan)) as (pre & last & Eq & Hl); [lia|].
-    exists (plan :: pre), last. split; auto. simpl. now rewrite Eq.
-  - exists [], plan. split; auto.
-Qed.
-
-(* more fuel changes nothing *)
-Lemma plan_seq_fuel fuel : forall opts plan k,
-  total_intr plan < fuel -> plan_seq (fuel + k) opts plan = plan_seq fuel opts plan.
-Proof.
-  induction fuel as [|f IH]; intros opts plan k L; [lia|]. simpl.
-  destruct (is_intr (run_outcome (live_opts plan opts) plan)) eqn:E; auto.
-  f_equal. apply IH.
-  assert (Ho : run_outcome (live_opts plan opts) plan = OutIntr)
-    by (destruct (run_outcome (live_opts plan opts) plan); try discriminate; auto).
-  pose proof (resume_stages_decreases _ _ Ho). lia.
-Qed.
-
 (* ---------------------------------------------------------------- every run with call options of its own *)
 
 Lemma plan_seqf_uids fuel : forall k os plan op,
   In op (plan_seqf fuel k os plan) -> subseq (rstages_uids (snd op)) (rstages_uids plan) /\ exists j, fst op = os j.
 Proof.
   induction fuel as [|f IH]; simpl; intros k os plan op H; [contradiction|].
-  destruct H as [<-|H]; [split; [apply subseq_refl|eauto]|].
-  destruct (is_intr _); [|contradiction].
+  destruct H as [<-|H]; [split; [apply subseq_refl|exists k; reflexivity]|].
+  destruct (is_intr (run_outcome (live_opts plan (os k)) plan)); [|contradiction].
   destruct (IH _ _ _ _ H) as (S & J). split; auto.
   eapply subseq_trans; [exact S|]. apply resume_stages_uids.
 Qed.
@@ -510,6 +412,8 @@ Proof.
   exists o. rewrite <- Ej. repeat split; auto. now rewrite <- Ef.
 Qed.
 
+(* with fuel beyond the number of interrupts still to come the sequence is complete: its last
+   run is not interrupted *)
 Theorem plan_seqf_complete fuel : forall k os plan,
   total_intr plan < fuel ->
   exists pre last, plan_seqf fuel k os plan = pre ++ [last] /\
